@@ -93,7 +93,7 @@ class PathV:
         if name == 'glob':
             return LibFn('Path.glob', lambda it_, ca: self.glob(it_, ca.args[0]))
         if name == 'open':
-            return LibFn('Path.open', lambda it_, ca: FileCM(self, ca.args[0] if ca.args else 'r'))
+            return LibFn('Path.open', lambda it_, ca: open_file(it_, self, ca.args[0] if ca.args else 'r'))
         if name == 'unlink':
             def unlink(it_, ca):
                 fs = fs_of(it_)
@@ -188,39 +188,51 @@ class PathList:
         return self.g.n > 0
 
 
-class FileV:
+class FileV(CM):
+    """an open file object; also the context manager `with f:` (enter returns the object itself)"""
+
     def __init__(self, path, mode):
         self.path, self.mode = path, mode
 
     def sym_getattr(self, it, name):
         if name == 'seek':
             return LibFn('file.seek', lambda it_, ca: 0)
+        if name == 'close':
+            return LibFn('file.close', lambda it_, ca: None)
         if name == 'write':
             raise Unsupported('file.write')
         raise Unsupported(f'file.{name}')
 
-
-class FileCM(CM):
-    def __init__(self, path, mode):
-        self.path, self.mode = path, mode
-
     def cm_enter(self, it, is_async):
-        st = it.st
-        fs = fs_of(it)
-        files = st.getf(fs, 'files')
-        if not isinstance(self.mode, str):
-            raise Unsupported('symbolic file mode')
-        used(it, FSAX + 'open(path, "w*") creates / truncates the file at once; open(path, "r*") requires it to exist')
-        if self.mode.startswith('w'):
-            st.emit('fs_create', path=self.path, mode=self.mode)
-            st.setf(fs, 'files', files.store(self.path.key(), content(K_EMPTY, NONE)))
-        else:
-            if not st.branch(files.has(self.path.key()), 'open-exists'):
-                it.raise_builtin('FileNotFoundError')
-        return FileV(self.path, self.mode)
+        return self
 
     def cm_exit(self, it, is_async, pr):
         return False
+
+
+def open_file(it, path, mode):
+    """Path.open(mode): the file is opened (created / truncated / required to exist) by the call itself"""
+    st = it.st
+    fs = fs_of(it)
+    files = st.getf(fs, 'files')
+    if not isinstance(mode, str):
+        raise Unsupported('symbolic file mode')
+    used(it, FSAX + 'open(path, "w*") creates / truncates the file at once; open(path, "x*") creates it and raises '
+                    'FileExistsError if it exists; open(path, "r*") requires it to exist')
+    if mode.startswith('w'):
+        st.emit('fs_create', path=path, mode=mode)
+        st.setf(fs, 'files', files.store(path.key(), content(K_EMPTY, NONE)))
+    elif mode.startswith('x'):
+        if st.branch(files.has(path.key()), 'open-x-exists'):
+            it.raise_builtin('FileExistsError')
+        st.emit('fs_create', path=path, mode=mode)
+        st.setf(fs, 'files', files.store(path.key(), content(K_EMPTY, NONE)))
+    elif mode.startswith('r'):
+        if not st.branch(files.has(path.key()), 'open-exists'):
+            it.raise_builtin('FileNotFoundError')
+    else:
+        raise Unsupported(f'file mode {mode!r}')
+    return FileV(path, mode)
 
 
 class FsPlugin:
